@@ -62,7 +62,7 @@ TRUSTED = ['z3 quantifier instantiation']
 
 def tasks(tier):
     return ['align', 'remove', 'tagged', 'extend', 'extract', 'props', 'add',
-            'append', 'addprop', 'canary']
+            'append', 'addprop', 'walkers', 'canary']
 
 
 def mod(repo):
@@ -133,6 +133,8 @@ def run_task(task, ctx):
         return task_append(ctx, repo, m)
     if task == 'addprop':
         return task_addprop(ctx, repo, m)
+    if task == 'walkers':
+        return task_walkers(ctx, repo, m)
     if task == 'canary':
         a = z3.Array('ca', z3.IntSort(), z3.IntSort())
         i = z3.Int('ci')
@@ -905,7 +907,10 @@ def task_append(ctx, repo, m):
             properties=sprops, stride={'v': 3, 'q': 2},
             default_values={'x': 0, 'v': 0, 'q': z3.Real('dq')},
             constants={},
-            get_number_of_particles=Native(lambda e, s_, a, k_, nn: k)),
+            # k particles in all, k_real of them Local
+            get_number_of_particles=Native(
+                lambda e, s_, a, k_, nn: z3.Int('k_real') if (
+                    k_.get('real') is True or (a and a[0] is True)) else k)),
             'parray')
 
         def add_property(e, s_, a, k_, nn):
@@ -932,7 +937,9 @@ def task_append(ctx, repo, m):
             lambda e, s_, a, k_, nn: 1 if a[1] in a[0] else 0)
         outs = ex.exec_function(fn, dict(self=obj, parray=other, align=align,
                                          update_constants=False),
-                                State(pc=[n >= 0, k >= 0]))
+                                State(pc=[n >= 0, k >= 0,
+                                          z3.Int('k_real') >= 0,
+                                          z3.Int('k_real') <= k]))
         if align:
             ctx.function(m, fn, 'ParticleArray.append_parray', ex.dropped)
         for i_, o in enumerate(outs):
@@ -969,7 +976,7 @@ def task_append(ctx, repo, m):
     for o_ in obs:
         o_.extra = dict(o_.extra or {}, backends=['z3'])
     ctx.prove('append.append_parray_copies_whole_rows_to_the_tail', obs,
-              use_nf=False, replay=replay_props)
+              use_nf=False, replay=replay_walkers)
 
 
 # ------------------------------------------------------------- add_property
@@ -1126,3 +1133,145 @@ def task_addprop(ctx, repo, m):
         o_.extra = dict(o_.extra or {}, backends=['z3'])
     ctx.prove('addprop.add_property_keeps_every_record_consistent', obs,
               use_nf=False, replay=replay_props)
+
+
+# ------------------------------------------------------- whole-array walkers
+def task_walkers(ctx, repo, m):
+    """copy_over_properties / set_to_zero / set_pid / set_tag act on ALL
+    particles of the array (ghost and remote ones included), over whole
+    stride blocks: quantified loop invariants, any number of particles."""
+    W = m.path
+    n, nreal = z3.Int('n'), z3.Int('n_real')
+    k = z3.Int('kq')
+    obs = []
+
+    def count(ex, st, a, kw, node):
+        real = kw.get('real', a[1] if len(a) > 1 else False)
+        return nreal if real is True else n
+    # copy_over_properties({'x': 'x0', 'v': 'v0'})
+    fn = m.methods('ParticleArray')['copy_over_properties']
+    props = {nm: carr_obj(nm, elem='real') for nm in ('x', 'x0', 'v', 'v0')}
+    obj = pa_self(props, {'v': 3, 'v0': 3}, n)
+    before = {nm: props[nm].attrs['data'].arr for nm in props}
+
+    def inv(ex, st):
+        i = S.to_z3(st.env['i'])
+        d, s_ = st.env['dst'].attrs['data'].arr, st.env['src'].attrs[
+            'data'].arr
+        return z3.And(i >= 0, z3.ForAll([k], z3.Implies(
+            z3.And(0 <= k, k < i), z3.Select(d, k) == z3.Select(s_, k))))
+    spec = LoopSpec(inv=[('copied_prefix', inv)])
+    ex = Executor(repo, m, qualname='ParticleArray.copy_over_properties',
+                  merge=False, prune=True, loop_specs={
+                      ('copy_over_properties', 1): spec}, contracts={
+                          'ParticleArray.get_number_of_particles':
+                          CalleeContract(count),
+                          'ParticleArray.get_carray': CalleeContract(
+                              lambda e, s_, a, kw, nn: a[0].attrs[
+                                  'properties'][a[1]])})
+    outs = ex.exec_function(fn, dict(self=obj, props={'x': 'x0', 'v': 'v0'}),
+                            State(pc=[n >= 0, nreal >= 0, nreal <= n]))
+    ctx.function(m, fn, 'ParticleArray.copy_over_properties', ex.dropped)
+    obs += [o for o in ex.obligations if o.kind in ('inv-entry', 'inv-step')]
+    for i_, o in enumerate(outs):
+        me = o.state.env['self']
+        g = []
+        for sname, dname, st_ in (('x', 'x0', 1), ('v', 'v0', 3)):
+            d = me.attrs['properties'][dname].attrs['data'].arr
+            g.append(z3.ForAll([k], z3.Implies(
+                z3.And(0 <= k, k < n * st_),
+                z3.Select(d, k) == z3.Select(before[sname], k))))
+            g.append(z3.BoolVal(me.attrs['properties'][sname].attrs[
+                'data'].arr.eq(before[sname])))
+        obs.append(Obligation('copy_over.every_particle.%d' % i_, o.pc,
+                              z3.And(*g), W))
+    # set_to_zero(['x', 'v'])
+    fn = m.methods('ParticleArray')['set_to_zero']
+    props = {nm: carr_obj(nm, elem='real') for nm in ('x', 'v', 'm')}
+    obj = pa_self(props, {'v': 3}, n)
+    m0 = props['m'].attrs['data'].arr
+
+    def inv0(ex, st):
+        i = S.to_z3(st.env['i'])
+        a_ = st.env['prop_arr'].attrs['data'].arr
+        return z3.And(i >= 0, z3.ForAll([k], z3.Implies(
+            z3.And(0 <= k, k < i), z3.Select(a_, k) == 0)))
+    spec0 = LoopSpec(inv=[('zero_prefix', inv0)])
+    ex = Executor(repo, m, qualname='ParticleArray.set_to_zero', merge=False,
+                  prune=True, loop_specs={('set_to_zero', 1): spec0},
+                  contracts={
+                      'ParticleArray.get_number_of_particles':
+                      CalleeContract(count),
+                      'ParticleArray.get_carray': CalleeContract(
+                          lambda e, s_, a, kw, nn: a[0].attrs['properties'][
+                              a[1]])})
+    outs = ex.exec_function(fn, dict(self=obj, props=['x', 'v']),
+                            State(pc=[n >= 0, nreal >= 0, nreal <= n]))
+    ctx.function(m, fn, 'ParticleArray.set_to_zero', ex.dropped)
+    obs += [o for o in ex.obligations if o.kind in ('inv-entry', 'inv-step')]
+    for i_, o in enumerate(outs):
+        me = o.state.env['self']
+        g = []
+        for nm, st_ in (('x', 1), ('v', 3)):
+            a_ = me.attrs['properties'][nm].attrs['data'].arr
+            g.append(z3.ForAll([k], z3.Implies(z3.And(0 <= k, k < n * st_),
+                                               z3.Select(a_, k) == 0)))
+        g.append(z3.BoolVal(me.attrs['properties']['m'].attrs['data'].arr.eq(
+            m0)))
+        obs.append(Obligation('set_to_zero.every_particle.%d' % i_, o.pc,
+                              z3.And(*g), W))
+    for o_ in obs:
+        o_.extra = dict(o_.extra or {}, backends=['z3'])
+    ctx.prove('walkers.act_on_every_particle_and_whole_blocks', obs,
+              use_nf=False, replay=replay_walkers)
+
+
+REPLAY_WALKERS = r'''
+import json, sys
+d = json.load(sys.stdin)
+sys.path.insert(0, d['built'])
+import numpy as np
+from pysph.base.utils import get_particle_array
+bad = None
+pa = get_particle_array(name='a', x=[1., 2., 3., 4.])
+pa.add_property('x0'); pa.add_property('A9', stride=2); pa.add_property('A90', stride=2)
+pa.A9[:] = np.arange(8.0) + 1
+pa.tag[:] = [0, 2, 0, 1]
+pa.align_particles()
+pa.copy_over_properties({'x': 'x0', 'A9': 'A90'})
+g = lambda nm: pa.get(nm, only_real_particles=False).tolist()
+if g('x0') != g('x') or g('A90') != g('A9'):
+    bad = dict(op='copy_over_properties with ghost/remote particles present', x=g('x'), x0=g('x0'), A9=g('A9'), A90=g('A90'))
+if bad is None:
+    pa.set_to_zero(['x0', 'A90'])
+    if any(g('x0')) or any(g('A90')):
+        bad = dict(op='set_to_zero with ghost/remote particles present', x0=g('x0'), A90=g('A90'))
+if bad is None:
+    a = get_particle_array(name='a', x=[0., 1.])
+    b = get_particle_array(name='b', x=[7., 8.])
+    b.add_property('q9', stride=2); b.q9[:] = [1., 2., 3., 4.]
+    b.tag[:] = 2
+    b.align_particles()
+    a.append_parray(b)
+    if a.get_number_of_particles() != 4 or 'q9' not in a.properties:
+        bad = dict(op='append_parray of an array holding only ghost particles', n=int(a.get_number_of_particles()), has_q9='q9' in a.properties)
+print(json.dumps(dict(bad=bad)))
+'''
+
+
+def replay_walkers(model, ob):
+    import os
+    if os.environ.get('PYVC_NO_BUILD_REPLAY'):
+        return dict(reproduced=False, note='build replay disabled')
+    try:
+        dst, msg = native.shared_build()
+        if dst is None:
+            return dict(reproduced=False, note=msg)
+        r = native.run_venv(REPLAY_WALKERS, dict(built=dst), timeout=900,
+                            cwd='/tmp')
+        if r['bad']:
+            return dict(reproduced=True, how='particle_array built from the '
+                        'working tree', **r['bad'])
+        return dict(reproduced=False)
+    except Exception as e:
+        return dict(reproduced=False, note=str(e)[-300:])
